@@ -553,10 +553,10 @@ func checkC07(c *Ctx) {
 	// R7.5 writers of the flags
 	var ws []string
 	for _, s := range c.P.writersOfField(dv.fields["ccZeroed"]) {
-		name := dv.ownerOf(s.Fn).Name()
+		name := dv.refName(dv.ownerOf(s.Fn))
 		key := "write(Device.ccZeroed)@" + shortFn(s.Fn)
 		ws = append(ws, name)
-		if name == "handleABSEvent" || name == "NewDevice" {
+		if sameAnchorName(name, "handleABSEvent") || sameAnchorName(name, "NewDevice") {
 			c.OK("R7.5", key, c.P.Pos(s.Instr.Pos()), "allowed writer")
 		} else {
 			c.Bad("R7.5", key, c.P.Pos(s.Instr.Pos()), "the zero flags are written outside the axis handler")
